@@ -34,6 +34,12 @@ claimed.update({
  "C05": step("Two symbolic harnesses on the real code: (1) one step from every DECIDED Inv state for every API: whole-state fingerprint unchanged, no ProcessBlock/ProcessPreBlock, no timer call, no broadcast except a RecoveryMessage answering a RecoveryRequest; at most one successful ProcessBlock per call from undecided states; (2) Reset/Start from an arbitrary Inv state with a symbolic future-message cache, any ledger jump, changing validator count and own index: height/prev-hash/validators/index/timing from the callbacks, view 0 unless M cached change views, nothing retained but cached payloads of the entered height, flags cleared, no cache inbox at or below the entered height, admissible cached payloads are in their tables.", "DESIGN.md §6 C05"),
  "C11": step("One-step symbolic execution with the input constrained, per job, to one class of inadmissible input of the statement or to a payload already stored in its slot: whole-state fingerprint equal before/after (sender's LastSeenMessage excepted), no callback fires (re-delivery: nothing but a RecoveryMessage). Every implicit Go panic on any feasible path of any API from any Inv state with arbitrary callback results is a violation. The re-delivered-ChangeView exception KF-2 is a recorded known finding.", "DESIGN.md §6 C11"),
  "C12": step("One-step symbolic execution of the real OnTransaction from every Inv state of a backup that stored the proposal, misses exactly the supplied transaction, has not answered and is not asking to leave the view: a PrepareResponse for that proposal or a ChangeView is broadcast in that call; Inv conjunct 7 (every proposed hash not held is still in MissingTransactions while an answer is owed) is preserved by every API, including a view change plus cached next-view proposal inside the same call.", "DESIGN.md §6 C12"),
+ "C01": dict(category="model_checking",
+   text=("Agreement is decided compositionally, every solver-decidable part on the real code: (L1/L2) commit lock and single commit with identical retransmissions, (L3) decision certificate at every ProcessBlock: >= M current-view commits verifying against exactly that block, (L4/L5) own commit signs the header built from the stored proposal and only payloads of the node's height are stored: each discharged by one symbolic step of the relevant APIs from EVERY Inv state (N=4, anti-MEV enabling height symbolic); (Q) on the real M()/F(): any two M-sets minus any F-set intersect for every N<=10 (bit-set query) and 2M-N>=F+1 for every N<=65535. The step from these to the multi-node statement is a short paper argument (DESIGN §6 C01); a whole-network search is outside this technique. On the unchanged tree L3 fails inside the recorded carve-out KF-1 (a real fork with one Byzantine primary, not repairable without contradicting an existing test) and is printed as KNOWN-FINDING."),
+   design_ref="DESIGN.md §6 C01", technique=STEP_TECH + "; quorum intersection as SMT set/arithmetic queries; composition argued", note=STEP_NOTE),
+ "C15": dict(category="model_checking",
+   text=("Symbolic execution of the real proposing branch (OnTimeout/OnNewTransaction/Start -> sendPrepareRequest -> Fill -> getTimestamp) with previous timestamp, clock reading, timestamp increment (default 10^6 and ANY value in [1,2^40]) and pool content as solver variables: timestamp strictly increasing, equal to max(previous+increment, clock truncated to the increment), NewPrepareRequest/payload/context/primary's block all carry exactly (timestamp, nonce, pool hashes in order). Division by the increment is decided by cvc5's bit-vectors-as-integers translation for the whole 64-bit domain."),
+   design_ref="DESIGN.md §6 C15", technique="symbolic execution of go/ssa + SMT (cvc5 --solve-bv-as-int for division by the increment)", note=STEP_NOTE),
 })
 
 na = {
